@@ -87,7 +87,8 @@ def check_jobs(prop, tier, replay):
                   cfg_extra="  Ablate = {}",
                   env_of=lambda b, seed, out: {"VERIF_OUT": out, "VERIF_SEED": seed, "VERIF_FIRST": b["first"],
                                                "VERIF_TRACES": b["traces"], "VERIF_STEPS": b["steps"]},
-                  mc=[("MCSnapshotJobs", "MC_SnapshotJobs_conc.cfg", 600, 4), ("MCSnapshotJobs", "MC_SnapshotJobs_plain.cfg", 300, 4)],
+                  mc=[("MCSnapshotJobs", "MC_SnapshotJobs_conc.cfg", 600, 4), ("MCSnapshotJobs", "MC_SnapshotJobs_plain.cfg", 300, 4)] +
+                     ([("MCSnapshotJobs", "MC_SnapshotJobs_big.cfg", 900, 8)] if tier == "thorough" else []),
                   mc_deadlock=False,
                   mc_expect_violation=[("MCSnapshotJobs", "MC_SnapshotJobs_abl_recover_ignores_streams.cfg", "Inv"),
                                        ("MCSnapshotJobs", "MC_SnapshotJobs_abl_stream_flag.cfg", "Inv"),
